@@ -115,10 +115,10 @@ Section P.
 
   (* ---- induction over trees ---- *)
   Lemma tree_ind' (P : tree -> Prop) :
-    (forall n a lp c rp aft, P (Leaf n a lp c rp aft)) -> (forall n a aft, P (Empty n a aft)) ->
-    (forall n a pre cs aft, Forall P cs -> P (Node n a pre cs aft)) -> forall t, P t.
+    (forall n a tl lp c rp aft, P (Leaf n a tl lp c rp aft)) -> (forall n a tl aft, P (Empty n a tl aft)) ->
+    (forall n a tl pre cs aft, Forall P cs -> P (Node n a tl pre cs aft)) -> forall t, P t.
   Proof.
-    intros HL HE HN. fix IH 1. intros [n a lp c rp aft|n a aft|n a pre cs aft]; [apply HL|apply HE|apply HN].
+    intros HL HE HN. fix IH 1. intros [n a tl lp c rp aft|n a tl aft|n a tl pre cs aft]; [apply HL|apply HE|apply HN].
     induction cs as [|c cs IHcs]; constructor; [apply IH|exact IHcs].
   Qed.
 
@@ -159,11 +159,18 @@ Section P.
   Lemma blank_not_ascii_word c : blank c = true -> ascii_word c = false.
   Proof. unfold blank, ascii_word. lia. Qed.
 
-  Lemma after_name a closing c0 : forallb attr_ok a = true -> ascii_word c0 = false ->
-    exists e r, ser_attrs a ++ c0 :: closing = e :: r /\ ascii_word e = false.
+  Lemma tail_ok_parts a tl : tail_ok a tl = true -> forallb blank tl = true /\ (a = [] -> tl = []).
   Proof.
-    intros Ha Hc. destruct a as [|[[sep k] v] a]; cbn [ser_attrs flat_map app].
-    - exists c0, closing. split; [reflexivity|exact Hc].
+    unfold tail_ok. intros H. apply andb_true_iff in H as [H1 H2]. split; [exact H1|]. intros ->. cbn in H2. destruct tl; [reflexivity|discriminate].
+  Qed.
+  Lemma blanks_nolt tl : forallb blank tl = true -> no_lt tl = true.
+  Proof. unfold no_lt. rewrite !forallb_forall. intros H x Hx. specialize (H x Hx). unfold blank, LT in *. lia. Qed.
+
+  Lemma after_name a tl closing c0 : forallb attr_ok a = true -> tail_ok a tl = true -> ascii_word c0 = false ->
+    exists e r, (ser_attrs a ++ tl) ++ c0 :: closing = e :: r /\ ascii_word e = false.
+  Proof.
+    intros Ha Ht Hc. destruct (tail_ok_parts a tl Ht) as [Hb Hnil]. destruct a as [|[[sep k] v] a]; cbn [ser_attrs flat_map app].
+    - rewrite (Hnil eq_refl). exists c0, closing. split; [reflexivity|exact Hc].
     - cbn [forallb] in Ha. apply andb_true_iff in Ha as [Ha _]. unfold attr_ok in Ha.
       apply andb_true_iff in Ha as [Ha _]. apply andb_true_iff in Ha as [Ha _]. apply andb_true_iff in Ha as [Hs _].
       unfold blanks_ok in Hs. destruct sep as [|s0 sep]; [discriminate|]. cbn [negb andb forallb] in Hs. apply andb_true_iff in Hs as [Hs0 _].
@@ -215,23 +222,23 @@ Section P.
     - rewrite <- app_assoc, E. apply Mo; assumption.
   Qed.
 
-  Lemma skip_open nd k n a rest pos : misses nd k -> name_ok n = true -> n <> k -> forallb attr_ok a = true ->
-    index_aux nd (open_tag n a ++ rest) pos = index_aux nd rest (pos + length (open_tag n a))%nat.
+  Lemma skip_open nd k n a tl rest pos : misses nd k -> name_ok n = true -> n <> k -> forallb attr_ok a = true -> tail_ok a tl = true ->
+    index_aux nd (open_tag n a tl ++ rest) pos = index_aux nd rest (pos + length (open_tag n a tl))%nat.
   Proof.
-    intros M Hn Hne Ha. unfold open_tag. change ([LT] ++ n ++ ser_attrs a ++ [GT]) with (LT :: n ++ (ser_attrs a ++ [GT])).
+    intros M Hn Hne Ha Ht. unfold open_tag. change ([LT] ++ n ++ (ser_attrs a ++ tl) ++ [GT]) with (LT :: n ++ ((ser_attrs a ++ tl) ++ [GT])).
     apply (skip_named nd k); auto.
-    - rewrite no_lt_app, (attrs_nolt a Ha). reflexivity.
-    - destruct (after_name a rest GT Ha not_word_gt) as (e & r & E & He). exists e, r. split; [|exact He].
+    - destruct (tail_ok_parts a tl Ht) as [Hb _]. rewrite !no_lt_app, (attrs_nolt a Ha), (blanks_nolt tl Hb). reflexivity.
+    - destruct (after_name a tl rest GT Ha Ht not_word_gt) as (e & r & E & He). exists e, r. split; [|exact He].
       rewrite <- app_assoc. exact E.
   Qed.
 
-  Lemma skip_empty nd k n a rest pos : misses nd k -> name_ok n = true -> n <> k -> forallb attr_ok a = true ->
-    index_aux nd (([LT] ++ n ++ ser_attrs a ++ [SLASH; GT]) ++ rest) pos = index_aux nd rest (pos + length ([LT] ++ n ++ ser_attrs a ++ [SLASH; GT]))%nat.
+  Lemma skip_empty nd k n a tl rest pos : misses nd k -> name_ok n = true -> n <> k -> forallb attr_ok a = true -> tail_ok a tl = true ->
+    index_aux nd (empty_tag n a tl ++ rest) pos = index_aux nd rest (pos + length (empty_tag n a tl))%nat.
   Proof.
-    intros M Hn Hne Ha. change ([LT] ++ n ++ ser_attrs a ++ [SLASH; GT]) with (LT :: n ++ (ser_attrs a ++ [SLASH; GT])).
+    intros M Hn Hne Ha Ht. unfold empty_tag. change ([LT] ++ n ++ (ser_attrs a ++ tl) ++ [SLASH; GT]) with (LT :: n ++ ((ser_attrs a ++ tl) ++ [SLASH; GT])).
     apply (skip_named nd k); auto.
-    - rewrite no_lt_app, (attrs_nolt a Ha). reflexivity.
-    - destruct (after_name a (GT :: rest) SLASH Ha not_word_slash) as (e & r & E & He). exists e, r. split; [|exact He].
+    - destruct (tail_ok_parts a tl Ht) as [Hb _]. rewrite !no_lt_app, (attrs_nolt a Ha), (blanks_nolt tl Hb). reflexivity.
+    - destruct (after_name a tl (GT :: rest) SLASH Ha Ht not_word_slash) as (e & r & E & He). exists e, r. split; [|exact He].
       rewrite <- app_assoc. exact E.
   Qed.
 
@@ -249,13 +256,13 @@ Section P.
 
   Definition kids (cs : list tree) : text := flat_map (fun c => elem c ++ tafter c) cs.
 
-  Lemma wf_node n a pre cs aft : wf (Node n a pre cs aft) = true ->
-    name_ok n = true /\ attrs_ok a = true /\ all_space pre = true /\ all_space aft = true /\ cs <> [] /\ forallb wf cs = true /\
+  Lemma wf_node n a tl pre cs aft : wf (Node n a tl pre cs aft) = true ->
+    name_ok n = true /\ attrs_ok a = true /\ tail_ok a tl = true /\ all_space pre = true /\ all_space aft = true /\ cs <> [] /\ forallb wf cs = true /\
     ~ In n (flat_map names cs).
   Proof.
     cbn [wf]. intros H.
     apply andb_true_iff in H as [H H7]. apply andb_true_iff in H as [H H6]. apply andb_true_iff in H as [H H5].
-    apply andb_true_iff in H as [H H4]. apply andb_true_iff in H as [H H3]. apply andb_true_iff in H as [H1 H2].
+    apply andb_true_iff in H as [H H4]. apply andb_true_iff in H as [H H3]. apply andb_true_iff in H as [H H2b]. apply andb_true_iff in H as [H1 H2].
     repeat split; auto.
     - intros ->. discriminate H5.
     - intros Hin. apply negb_true_iff in H7.
@@ -275,7 +282,7 @@ Section P.
 
   Lemma wf_after t : wf t = true -> all_space (tafter t) = true.
   Proof.
-    destruct t as [n a lp c rp aft|n a aft|n a pre cs aft]; cbn [wf tafter]; intros H.
+    destruct t as [n a tl lp c rp aft|n a tl aft|n a tl pre cs aft]; cbn [wf tafter]; intros H.
     - apply andb_true_iff in H as [_ H]. exact H.
     - apply andb_true_iff in H as [_ H]. exact H.
     - apply wf_node in H. tauto.
@@ -284,26 +291,26 @@ Section P.
   Lemma skip_elem nd k : misses nd k -> forall t, wf t = true -> ~ In k (names t) ->
     forall rest pos, index_aux nd (elem t ++ rest) pos = index_aux nd rest (pos + length (elem t))%nat.
   Proof.
-    intros M. induction t as [n a lp c rp aft|n a aft|n a pre cs aft IH] using tree_ind'; intros Hwf Hk rest pos.
+    intros M. induction t as [n a tl lp c rp aft|n a tl aft|n a tl pre cs aft IH] using tree_ind'; intros Hwf Hk rest pos.
     - cbn [wf] in Hwf. apply andb_true_iff in Hwf as [Hwf _]. apply andb_true_iff in Hwf as [Hwf Hrp]. apply andb_true_iff in Hwf as [Hwf Hlp].
-      apply andb_true_iff in Hwf as [Hwf Hc]. apply andb_true_iff in Hwf as [Hn Ha].
+      apply andb_true_iff in Hwf as [Hwf Hc]. apply andb_true_iff in Hwf as [Hwf Ht]. apply andb_true_iff in Hwf as [Hn Ha].
       unfold attrs_ok in Ha. apply andb_true_iff in Ha as [Ha _]. unfold content_ok in Hc. apply andb_true_iff in Hc as [Hc _]. apply andb_true_iff in Hc as [Hc _].
       assert (Hne : n <> k) by (intros ->; apply Hk; left; reflexivity).
       destruct M as [[nd' E] Mc Mo]. pose proof (Build_misses nd k (ex_intro _ nd' E) Mc Mo) as M.
       assert (Hmid : no_lt (lp ++ c ++ rp) = true) by (rewrite !no_lt_app, Hc, (all_space_nolt _ Hlp), (all_space_nolt _ Hrp); reflexivity).
-      cbn [elem]. rewrite <- !app_assoc. rewrite (skip_open nd k n a _ _ M Hn Hne Ha). subst nd.
+      cbn [elem]. rewrite <- !app_assoc. rewrite (skip_open nd k n a tl _ _ M Hn Hne Ha Ht). subst nd.
       replace (lp ++ c ++ rp ++ close_tag n ++ rest) with ((lp ++ c ++ rp) ++ close_tag n ++ rest) by (rewrite <- !app_assoc; reflexivity).
       rewrite (index_skip_nolt nd' _ Hmid). rewrite (skip_close _ k n _ _ M Hn Hne). f_equal. rewrite !app_length. lia.
-    - cbn [wf] in Hwf. apply andb_true_iff in Hwf as [Hwf _]. apply andb_true_iff in Hwf as [Hwf _]. apply andb_true_iff in Hwf as [Hn Ha].
+    - cbn [wf] in Hwf. apply andb_true_iff in Hwf as [Hwf _]. apply andb_true_iff in Hwf as [Hwf _]. apply andb_true_iff in Hwf as [Hwf Ht]. apply andb_true_iff in Hwf as [Hn Ha].
       unfold attrs_ok in Ha. apply andb_true_iff in Ha as [Ha _].
       assert (Hne : n <> k) by (intros ->; apply Hk; left; reflexivity).
       cbn [elem]. apply (skip_empty nd k); assumption.
-    - pose proof (wf_node _ _ _ _ _ Hwf) as (Hn & Ha & Hpre & _ & _ & Hcs & _).
+    - pose proof (wf_node _ _ _ _ _ _ Hwf) as (Hn & Ha & Ht & Hpre & _ & _ & Hcs & _).
       unfold attrs_ok in Ha. apply andb_true_iff in Ha as [Ha _].
       assert (Hne : n <> k) by (intros ->; apply Hk; left; reflexivity).
       assert (Hkc : ~ In k (flat_map names cs)) by (intros Hin; apply Hk; right; exact Hin).
       destruct M as [[nd' E] Mc Mo]. pose proof (Build_misses nd k (ex_intro _ nd' E) Mc Mo) as M.
-      cbn [elem]. fold (kids cs). rewrite <- !app_assoc. rewrite (skip_open nd k n a _ _ M Hn Hne Ha).
+      cbn [elem]. fold (kids cs). rewrite <- !app_assoc. rewrite (skip_open nd k n a tl _ _ M Hn Hne Ha Ht).
       assert (HF : Forall (fun c => forall rest pos, index_aux nd (elem c ++ rest) pos = index_aux nd rest (pos + length (elem c))%nat) cs).
       { rewrite Forall_forall in *. intros c Hc. apply IH; [exact Hc| |].
         - rewrite forallb_forall in Hcs. apply Hcs. exact Hc.
@@ -511,10 +518,10 @@ Section P.
     assert (k0 =? SLASH = false) as ->; [|reflexivity]. unfold ascii_word, SLASH in *. lia.
   Qed.
 
-  Lemma open_tag_body n a : open_tag n a = LT :: (n ++ ser_attrs a ++ [GT]).
+  Lemma open_tag_body n a tb : open_tag n a tb = LT :: (n ++ (ser_attrs a ++ tb) ++ [GT]).
   Proof. reflexivity. Qed.
-  Lemma open_tag_body_nolt n a : name_ok n = true -> forallb attr_ok a = true -> no_lt (n ++ ser_attrs a ++ [GT]) = true.
-  Proof. intros Hn Ha. apply name_ok_word in Hn as [Hw _]. rewrite !no_lt_app, (ascii_word_nolt n Hw), (attrs_nolt a Ha). reflexivity. Qed.
+  Lemma open_tag_body_nolt n a tb : name_ok n = true -> forallb attr_ok a = true -> tail_ok a tb = true -> no_lt (n ++ (ser_attrs a ++ tb) ++ [GT]) = true.
+  Proof. intros Hn Ha Ht. apply name_ok_word in Hn as [Hw _]. destruct (tail_ok_parts a tb Ht) as [Hb _]. rewrite !no_lt_app, (ascii_word_nolt n Hw), (attrs_nolt a Ha), (blanks_nolt tb Hb). reflexivity. Qed.
   Lemma close_tag_body n : close_tag n = LT :: (SLASH :: n ++ [GT]).
   Proof. reflexivity. Qed.
   Lemma close_tag_body_nolt n : name_ok n = true -> no_lt (SLASH :: n ++ [GT]) = true.
@@ -524,43 +531,43 @@ Section P.
   Proof. unfold index_from. assert (Nat.ltb (length x) 0 = false) as -> by (apply Nat.ltb_ge; lia). reflexivity. Qed.
 
   (* the end tag is found right after the middle part *)
-  Lemma find_close n a mid R : name_ok n = true -> skippable (close_tag n) mid ->
-    index_from (close_tag n) (open_tag n a ++ mid ++ close_tag n ++ R) (length (open_tag n a)) = Some (length (open_tag n a) + length mid)%nat.
+  Lemma find_close n a tb mid R : name_ok n = true -> skippable (close_tag n) mid ->
+    index_from (close_tag n) (open_tag n a tb ++ mid ++ close_tag n ++ R) (length (open_tag n a tb)) = Some (length (open_tag n a tb) + length mid)%nat.
   Proof.
     intros Hn Hsk. unfold index_from.
-    assert (Nat.ltb (length (open_tag n a ++ mid ++ close_tag n ++ R)) (length (open_tag n a)) = false) as ->.
+    assert (Nat.ltb (length (open_tag n a tb ++ mid ++ close_tag n ++ R)) (length (open_tag n a tb)) = false) as ->.
     { apply Nat.ltb_ge. rewrite app_length. lia. }
-    rewrite skipn_app, skipn_all. replace (length (open_tag n a) - length (open_tag n a))%nat with O by lia. cbn [skipn app].
+    rewrite skipn_app, skipn_all. replace (length (open_tag n a tb) - length (open_tag n a tb))%nat with O by lia. cbn [skipn app].
     rewrite Hsk. apply index_here. apply starts_with_refl.
   Qed.
 
   (* neither nested-element probe moves the end *)
-  Lemma no_nested nd k n a mid R i : nd = LT :: k ++ [GT] \/ nd = LT :: k ++ [32] -> k = n -> name_ok n = true -> forallb attr_ok a = true ->
+  Lemma no_nested nd k n a tb mid R i : nd = LT :: k ++ [GT] \/ nd = LT :: k ++ [32] -> k = n -> name_ok n = true -> forallb attr_ok a = true -> tail_ok a tb = true ->
     skippable nd mid ->
-    index_aux nd (open_tag n a ++ mid ++ close_tag n ++ R) 0 = Some i -> i = O \/ (length (open_tag n a ++ mid ++ close_tag n) <= i)%nat.
+    index_aux nd (open_tag n a tb ++ mid ++ close_tag n ++ R) 0 = Some i -> i = O \/ (length (open_tag n a tb ++ mid ++ close_tag n) <= i)%nat.
   Proof.
-    intros Hnd -> Hn Ha Hsk Hi.
+    intros Hnd -> Hn Ha Ht Hsk Hi.
     assert (exists d, nd = LT :: n ++ [d]) as [d E] by (destruct Hnd as [->| ->]; eexists; reflexivity). clear Hnd.
-    destruct (starts_with nd (open_tag n a ++ mid ++ close_tag n ++ R)) eqn:Es.
+    destruct (starts_with nd (open_tag n a tb ++ mid ++ close_tag n ++ R)) eqn:Es.
     - left. rewrite (index_here _ _ _ Es) in Hi. congruence.
     - right. rewrite open_tag_body in Hi, Es. subst nd.
-      rewrite (index_skip_tag2 _ _ _ _ (open_tag_body_nolt n a Hn Ha) Es) in Hi.
+      rewrite (index_skip_tag2 _ _ _ _ (open_tag_body_nolt n a tb Hn Ha Ht) Es) in Hi.
       rewrite Hsk in Hi. rewrite close_tag_body in Hi.
       rewrite (index_skip_tag2 _ _ _ _ (close_tag_body_nolt n Hn)) in Hi.
       + apply index_ge in Hi. rewrite !app_length. rewrite open_tag_body, close_tag_body. cbn [length] in *. lia.
       + pose proof (open_needle_close n d n R Hn) as H. rewrite close_tag_body in H. exact H.
   Qed.
 
-  Lemma find_end n a mid R : name_ok n = true -> forallb attr_ok a = true ->
+  Lemma find_end n a tb mid R : name_ok n = true -> forallb attr_ok a = true -> tail_ok a tb = true ->
     skippable (close_tag n) mid -> skippable (LT :: n ++ [GT]) mid -> skippable (LT :: n ++ [32]) mid ->
-    find_end_of_element (open_tag n a ++ mid ++ close_tag n ++ R) (length (open_tag n a)) n =
-    OK ((length (open_tag n a) + length mid)%nat, (length (open_tag n a) + length mid + length (close_tag n))%nat).
+    find_end_of_element (open_tag n a tb ++ mid ++ close_tag n ++ R) (length (open_tag n a tb)) n =
+    OK ((length (open_tag n a tb) + length mid)%nat, (length (open_tag n a tb) + length mid + length (close_tag n))%nat).
   Proof.
-    intros Hn Ha S1 S2 S3. unfold find_end_of_element.
+    intros Hn Ha Ht S1 S2 S3. unfold find_end_of_element.
     change ([LT; SLASH] ++ n ++ [GT]) with (close_tag n). change ([LT] ++ n ++ [GT]) with (LT :: n ++ [GT]). change ([LT] ++ n ++ [32]) with (LT :: n ++ [32]).
-    rewrite (find_close n a mid R Hn S1). rewrite !index_from_0.
-    set (x := open_tag n a ++ mid ++ close_tag n ++ R). set (e := (length (open_tag n a) + length mid)%nat).
-    assert (Hlen : (e < length (open_tag n a ++ mid ++ close_tag n))%nat).
+    rewrite (find_close n a tb mid R Hn S1). rewrite !index_from_0.
+    set (x := open_tag n a tb ++ mid ++ close_tag n ++ R). set (e := (length (open_tag n a tb) + length mid)%nat).
+    assert (Hlen : (e < length (open_tag n a tb ++ mid ++ close_tag n))%nat).
     { unfold e. rewrite !app_length. rewrite close_tag_body. cbn [length]. lia. }
     assert (B : forall nd, nd = LT :: n ++ [GT] \/ nd = LT :: n ++ [32] -> skippable nd mid ->
                 match index_aux nd x 0 with
@@ -570,7 +577,7 @@ Section P.
                 | None => e
                 end = e).
     { intros nd Hnd Hs. destruct (index_aux nd x 0) as [i|] eqn:Ei; [|reflexivity].
-      destruct (no_nested nd n n a mid R i Hnd eq_refl Hn Ha Hs Ei) as [->|Hge]; [reflexivity|].
+      destruct (no_nested nd n n a tb mid R i Hnd eq_refl Hn Ha Ht Hs Ei) as [->|Hge]; [reflexivity|].
       assert (Nat.ltb i e = false) as -> by (apply Nat.ltb_ge; lia). rewrite andb_false_r. reflexivity. }
     rewrite (B _ (or_introl eq_refl) S2). rewrite (B _ (or_intror eq_refl) S3). reflexivity.
   Qed.
@@ -595,29 +602,43 @@ Section P.
       cbn [app] in EX. injection EX as _ EX. rewrite EX, rev_app_distr. reflexivity.
   Qed.
 
-  Definition rawopt (a : list attr) : option text := match a with [] => None | _ => Some (tl (ser_attrs a)) end.
-
-  Lemma parse_tag_open n a r : name_ok n = true -> forallb attr_ok a = true ->
-    parse_tag uw (open_tag n a ++ r) = OK (n, rawopt a, length (open_tag n a)).
+  Lemma ser_attrs_shape_tail a tb : a <> [] -> forallb attr_ok a = true -> forallb blank tb = true ->
+    exists s0 c0 U, ser_attrs a ++ tb = s0 :: c0 :: U /\ blank s0 = true /\ c0 <> NL /\ c0 <> GT /\ (forall c, In c U -> c <> GT /\ c <> NL) /\
+                    count_trailing_slash (rev (c0 :: U)) = O.
   Proof.
-    intros Hn Ha. destruct a as [|a0 l] eqn:Ea.
-    - unfold open_tag. cbn [ser_attrs flat_map app rawopt]. rewrite <- app_assoc. cbn [app]. rewrite (parse_tag_bare n r Hn).
-      f_equal. f_equal. len.
-    - rewrite <- Ea in *. assert (Hne : a <> []) by (rewrite Ea; discriminate).
-      destruct (ser_attrs_shape a Hne Ha) as (s0 & c0 & U & E & Hb & H1 & H2 & H3 & H4).
-      unfold open_tag. rewrite E. cbn [app]. rewrite <- ?app_assoc. cbn [app]. rewrite <- ?app_assoc. cbn [app].
-      pose proof (parse_tag_attrs n s0 c0 U [] r Hn Hb H1 H3 H2 H4 (or_introl eq_refl)) as P. cbn [app length] in P. rewrite P.
-      unfold rawopt. rewrite Ea. rewrite <- Ea. rewrite E. cbn [tl]. f_equal. f_equal. len.
+    intros Hne Ha Hb. destruct (ser_attrs_shape a Hne Ha) as (s0 & c0 & U & E & Hs & H1 & H2 & H3 & H4).
+    exists s0, c0, (U ++ tb). rewrite E. split; [reflexivity|]. split; [exact Hs|]. split; [exact H1|]. split; [exact H2|]. split.
+    - intros c Hc. apply in_app_or in Hc as [Hc|Hc]; [apply H3; exact Hc|]. rewrite forallb_forall in Hb. specialize (Hb c Hc). unfold blank, GT, NL in *. lia.
+    - destruct tb as [|t0 tb'] eqn:Etb; [rewrite app_nil_r; exact H4|]. rewrite <- Etb in *.
+      assert (Hl : exists tb0 q, tb = tb0 ++ [q]) by (destruct (@exists_last _ tb) as (x & y & ->); [rewrite Etb; discriminate|eexists; eexists; reflexivity]).
+      destruct Hl as (tb0 & q & Eq). rewrite Eq. change (c0 :: U ++ tb0 ++ [q]) with ((c0 :: U) ++ tb0 ++ [q]). rewrite app_assoc, rev_app_distr. cbn [rev app count_trailing_slash].
+      assert (Hq : blank q = true) by (rewrite forallb_forall in Hb; apply Hb; rewrite Eq; apply in_or_app; right; left; reflexivity).
+      assert (q =? SLASH = false) as -> by (unfold blank, SLASH in *; lia). reflexivity.
   Qed.
 
-  Lemma parse_tag_empty n a r : name_ok n = true -> forallb attr_ok a = true -> a <> [] ->
-    parse_tag uw (([LT] ++ n ++ ser_attrs a ++ [SLASH; GT]) ++ r) = OK (n, rawopt a, length ([LT] ++ n ++ ser_attrs a ++ [SLASH; GT])).
+  Definition rawopt (a : list attr) (tb : text) : option text := match a with [] => None | _ => Some (List.tl (ser_attrs a ++ tb)) end.
+
+  Lemma parse_tag_open n a tb r : name_ok n = true -> forallb attr_ok a = true -> tail_ok a tb = true ->
+    parse_tag uw (open_tag n a tb ++ r) = OK (n, rawopt a tb, length (open_tag n a tb)).
   Proof.
-    intros Hn Ha Hne.
-    destruct (ser_attrs_shape a Hne Ha) as (s0 & c0 & U & E & Hb & H1 & H2 & H3 & H4).
-    rewrite E. cbn [app]. rewrite <- ?app_assoc. cbn [app]. rewrite <- ?app_assoc. cbn [app].
-    pose proof (parse_tag_attrs n s0 c0 U [SLASH] r Hn Hb H1 H3 H2 H4 (or_intror eq_refl)) as P. cbn [app length] in P. rewrite P.
-    unfold rawopt. destruct a; [congruence|]. rewrite E. cbn [tl]. f_equal. f_equal. len.
+    intros Hn Ha Ht. destruct (tail_ok_parts a tb Ht) as [Hb Hnil]. destruct a as [|a0 l] eqn:Ea.
+    - rewrite (Hnil eq_refl). unfold open_tag. cbn [ser_attrs flat_map app rawopt]. rewrite <- app_assoc. cbn [app]. rewrite (parse_tag_bare n r Hn).
+      f_equal. f_equal. len.
+    - rewrite <- Ea in *. assert (Hne : a <> []) by (rewrite Ea; discriminate).
+      destruct (ser_attrs_shape_tail a tb Hne Ha Hb) as (s0 & c0 & U & E & Hs & H1 & H2 & H3 & H4).
+      unfold open_tag. rewrite E. cbn [app]. rewrite <- ?app_assoc. cbn [app]. rewrite <- ?app_assoc. cbn [app].
+      pose proof (parse_tag_attrs n s0 c0 U [] r Hn Hs H1 H3 H2 H4 (or_introl eq_refl)) as P. cbn [app length] in P. rewrite P.
+      unfold rawopt. rewrite Ea. rewrite <- Ea. rewrite E. cbn [List.tl]. f_equal. f_equal. len.
+  Qed.
+
+  Lemma parse_tag_empty n a tb r : name_ok n = true -> forallb attr_ok a = true -> tail_ok a tb = true -> a <> [] ->
+    parse_tag uw (empty_tag n a tb ++ r) = OK (n, rawopt a tb, length (empty_tag n a tb)).
+  Proof.
+    intros Hn Ha Ht Hne. destruct (tail_ok_parts a tb Ht) as [Hb _].
+    destruct (ser_attrs_shape_tail a tb Hne Ha Hb) as (s0 & c0 & U & E & Hs & H1 & H2 & H3 & H4).
+    unfold empty_tag. rewrite E. cbn [app]. rewrite <- ?app_assoc. cbn [app]. rewrite <- ?app_assoc. cbn [app].
+    pose proof (parse_tag_attrs n s0 c0 U [SLASH] r Hn Hs H1 H3 H2 H4 (or_intror eq_refl)) as P. cbn [app length] in P. rewrite P.
+    unfold rawopt. destruct a; [congruence|]. rewrite E. cbn [List.tl]. f_equal. f_equal. len.
   Qed.
 
   (* ---- the attribute dictionary ---- *)
@@ -646,17 +667,25 @@ Section P.
 
   Definition aopt (a : list attr) : option (list (text * text)) := match a with [] => None | _ => Some (attr_dict a) end.
 
-  Lemma parse_raw a fuel : attrs_ok a = true -> (length a < fuel)%nat ->
-    match rawopt a with
+  Lemma parse_attrs_strip_eq f x y acc : x <> [] -> y <> [] -> strip x = strip y -> parse_attrs uw (S f) x acc = parse_attrs uw (S f) y acc.
+  Proof. intros Hx Hy E. rewrite (parse_attrs_unfold f x acc Hx), (parse_attrs_unfold f y acc Hy), E. reflexivity. Qed.
+
+  Lemma parse_raw a tb fuel : attrs_ok a = true -> tail_ok a tb = true -> (length a < fuel)%nat ->
+    match rawopt a tb with
     | None => Done None
     | Some raw => match parse_attrs uw fuel raw [] with Done d => Done (Some d) | Fail c => Fail c | OutOfFuel => OutOfFuel end
     end = Done (aopt a).
   Proof.
-    intros Hok Hf. destruct a as [|[[sep k] v] l]; [reflexivity|]. unfold rawopt, aopt.
+    intros Hok Ht Hf. destruct (tail_ok_parts a tb Ht) as [Hb _]. destruct a as [|[[sep k] v] l]; [reflexivity|]. unfold rawopt, aopt.
     unfold attrs_ok in Hok. apply andb_true_iff in Hok as [Ha Hd]. cbn [forallb] in Ha. apply andb_true_iff in Ha as [Ha Hl].
     destruct (attr_ok_parts _ _ _ Ha) as (Hs & Hs0 & Hk & Hv0 & Hv).
-    rewrite ser_attrs_cons. destruct sep as [|s0 sep']; [congruence|]. cbn [app tl]. cbn [forallb] in Hs. apply andb_true_iff in Hs as [_ Hs].
+    rewrite ser_attrs_cons. destruct sep as [|s0 sep']; [congruence|]. cbn [app List.tl]. cbn [forallb] in Hs. apply andb_true_iff in Hs as [_ Hs].
     destruct fuel as [|fuel']; [lia|]. cbn [length] in Hf.
+    assert (Estrip : strip ((sep' ++ attr_body k v ++ ser_attrs l) ++ tb) = strip (sep' ++ attr_body k v ++ ser_attrs l)).
+    { destruct (body_edges k v l Hk) as [E1 E2].
+      rewrite (strip_core0 sep' _ (blanks_all_space _ Hs) E1 E2). rewrite <- app_assoc.
+      apply (strip_core sep' _ tb (blanks_all_space _ Hs) (blanks_all_space _ Hb) E1 E2). }
+    rewrite (parse_attrs_strip_eq fuel' _ (sep' ++ attr_body k v ++ ser_attrs l) [] ltac:(intros E; apply app_eq_nil in E as [E _]; revert E; apply body_nonempty; exact Hk) (body_nonempty sep' k v _ Hk) Estrip).
     rewrite (parse_attrs_loop l sep' k v [] fuel' Hs Hk Hv0 Hv Hl ltac:(lia)).
     cbn [attr_set]. f_equal. f_equal.
     change (map (fun a : text * text * text => snd (fst a)) ((s0 :: sep', k, v) :: l)) with (k :: map akey l) in Hd.
@@ -675,50 +704,54 @@ Section P.
     replace (length B - length B)%nat with O by lia. cbn [firstn]. apply app_nil_r.
   Qed.
 
-  Lemma open_tag_split n a : name_ok n = true -> forallb attr_ok a = true -> exists P q, open_tag n a = P ++ [q; GT] /\ q <> SLASH.
+  Lemma open_tag_split n a tb : name_ok n = true -> forallb attr_ok a = true -> tail_ok a tb = true -> exists P q, open_tag n a tb = P ++ [q; GT] /\ q <> SLASH.
   Proof.
-    intros Hn Ha. apply name_ok_word in Hn as [Hw Hn0]. destruct a as [|a0 l] eqn:Ea.
-    - destruct (@exists_last _ n Hn0) as (n' & q & ->). exists (LT :: n'), q. split.
-      + unfold open_tag. cbn [ser_attrs flat_map app]. rewrite <- app_assoc. reflexivity.
-      + rewrite forallb_app in Hw. apply andb_true_iff in Hw as [_ Hq]. cbn [forallb] in Hq. unfold ascii_word, SLASH in *. lia.
-    - rewrite <- Ea in *. destruct (ser_attrs_last a) as [X EX]; [rewrite Ea; discriminate|].
-      exists (LT :: n ++ X), QUOTE. split; [|unfold QUOTE, SLASH; lia].
-      unfold open_tag. rewrite EX. cbn [app]. rewrite <- !app_assoc. reflexivity.
+    intros Hn Ha Ht. destruct (tail_ok_parts a tb Ht) as [Hb Hnil]. apply name_ok_word in Hn as [Hw Hn0].
+    destruct tb as [|t0 tb'] eqn:Etb.
+    - destruct a as [|a0 l] eqn:Ea.
+      + destruct (@exists_last _ n Hn0) as (n' & q & ->). exists (LT :: n'), q. split.
+        * unfold open_tag. cbn [ser_attrs flat_map app]. rewrite <- app_assoc. reflexivity.
+        * rewrite forallb_app in Hw. apply andb_true_iff in Hw as [_ Hq]. cbn [forallb] in Hq. unfold ascii_word, SLASH in *. lia.
+      + rewrite <- Ea in *. destruct (ser_attrs_last a) as [X EX]; [rewrite Ea; discriminate|].
+        exists (LT :: n ++ X), QUOTE. split; [|unfold QUOTE, SLASH; lia].
+        unfold open_tag. rewrite EX, app_nil_r. cbn [app]. rewrite <- !app_assoc. reflexivity.
+    - rewrite <- Etb in *. destruct (@exists_last _ tb) as (tb0 & q & Eq); [rewrite Etb; discriminate|].
+      exists (LT :: n ++ ser_attrs a ++ tb0), q. split.
+      + unfold open_tag. rewrite Eq. cbn [app]. rewrite <- !app_assoc. reflexivity.
+      + assert (Hq : blank q = true) by (rewrite forallb_forall in Hb; apply Hb; rewrite Eq; apply in_or_app; right; left; reflexivity).
+        unfold blank, SLASH in *. lia.
   Qed.
 
-  Lemma not_selfclosing n a r : name_ok n = true -> forallb attr_ok a = true ->
-    text_eqb (slice (open_tag n a ++ r) (length (open_tag n a) - 2) (length (open_tag n a))) [SLASH; GT] = false.
+  Lemma not_selfclosing n a tb r : name_ok n = true -> forallb attr_ok a = true -> tail_ok a tb = true ->
+    text_eqb (slice (open_tag n a tb ++ r) (length (open_tag n a tb) - 2) (length (open_tag n a tb))) [SLASH; GT] = false.
   Proof.
-    intros Hn Ha. destruct (open_tag_split n a Hn Ha) as (P & q & E & Hq). rewrite E.
+    intros Hn Ha Ht. destruct (open_tag_split n a tb Hn Ha Ht) as (P & q & E & Hq). rewrite E.
     replace (length (P ++ [q; GT]) - 2)%nat with (length P) by len.
     replace (length (P ++ [q; GT])) with (length P + length [q; GT])%nat by len.
     rewrite <- app_assoc. rewrite slice_mid. cbn [text_eqb]. assert (q =? SLASH = false) as -> by (apply Z.eqb_neq; exact Hq). reflexivity.
   Qed.
 
-  Lemma first_element_pair fuel n a mid R : name_ok n = true -> attrs_ok a = true -> (length a < fuel)%nat ->
+  Lemma first_element_pair fuel n a tb mid R : name_ok n = true -> attrs_ok a = true -> tail_ok a tb = true -> (length a < fuel)%nat ->
     skippable (close_tag n) mid -> skippable (LT :: n ++ [GT]) mid -> skippable (LT :: n ++ [32]) mid ->
-    first_element uw fuel (open_tag n a ++ mid ++ close_tag n ++ R) =
-    Done (n, aopt a, strip mid, length (open_tag n a ++ mid ++ close_tag n)).
+    first_element uw fuel (open_tag n a tb ++ mid ++ close_tag n ++ R) =
+    Done (n, aopt a, strip mid, length (open_tag n a tb ++ mid ++ close_tag n)).
   Proof.
-    intros Hn Hok Hf S1 S2 S3. pose proof Hok as Hok'. unfold attrs_ok in Hok'. apply andb_true_iff in Hok' as [Ha _].
-    unfold first_element. rewrite (parse_tag_open n a _ Hn Ha). cbv zeta.
-    rewrite (parse_raw a fuel Hok Hf).
-    rewrite (not_selfclosing n a _ Hn Ha).
-    rewrite (find_end n a mid R Hn Ha S1 S2 S3).
+    intros Hn Hok Ht Hf S1 S2 S3. pose proof Hok as Hok'. unfold attrs_ok in Hok'. apply andb_true_iff in Hok' as [Ha _].
+    unfold first_element. rewrite (parse_tag_open n a tb _ Hn Ha Ht). cbv zeta.
+    rewrite (parse_raw a tb fuel Hok Ht Hf).
+    rewrite (not_selfclosing n a tb _ Hn Ha Ht).
+    rewrite (find_end n a tb mid R Hn Ha Ht S1 S2 S3).
     rewrite slice_mid. f_equal. f_equal. len.
   Qed.
 
-  Definition empty_tag (n : text) (a : list attr) : text := [LT] ++ n ++ ser_attrs a ++ [SLASH; GT].
-
-  Lemma first_element_empty fuel n a R : name_ok n = true -> attrs_ok a = true -> a <> [] -> (length a < fuel)%nat ->
-    first_element uw fuel (empty_tag n a ++ R) = Done (n, aopt a, [], length (empty_tag n a)).
+  Lemma first_element_empty fuel n a tb R : name_ok n = true -> attrs_ok a = true -> tail_ok a tb = true -> a <> [] -> (length a < fuel)%nat ->
+    first_element uw fuel (empty_tag n a tb ++ R) = Done (n, aopt a, [], length (empty_tag n a tb)).
   Proof.
-    intros Hn Hok Hne Hf. pose proof Hok as Hok'. unfold attrs_ok in Hok'. apply andb_true_iff in Hok' as [Ha _].
-    unfold first_element, empty_tag. rewrite (parse_tag_empty n a R Hn Ha Hne). cbv zeta.
-    rewrite (parse_raw a fuel Hok Hf).
-    set (E := [LT] ++ n ++ ser_attrs a ++ [SLASH; GT]).
-    assert (ES : exists P, E = P ++ [SLASH; GT]).
-    { exists ([LT] ++ n ++ ser_attrs a). unfold E. rewrite <- !app_assoc. reflexivity. }
+    intros Hn Hok Ht Hne Hf. pose proof Hok as Hok'. unfold attrs_ok in Hok'. apply andb_true_iff in Hok' as [Ha _].
+    unfold first_element. rewrite (parse_tag_empty n a tb R Hn Ha Ht Hne). cbv zeta.
+    rewrite (parse_raw a tb fuel Hok Ht Hf).
+    assert (ES : exists P, empty_tag n a tb = P ++ [SLASH; GT]).
+    { exists ([LT] ++ n ++ (ser_attrs a ++ tb)). unfold empty_tag. rewrite <- !app_assoc. reflexivity. }
     destruct ES as [P EP]. rewrite EP.
     replace (length (P ++ [SLASH; GT]) - 2)%nat with (length P) by len.
     replace (length (P ++ [SLASH; GT])) with (length P + length [SLASH; GT])%nat by len.
@@ -747,13 +780,13 @@ Section P.
   Lemma elem_edges t : wf t = true -> edge_ok (elem t) = true /\ edge_ok (rev (elem t)) = true.
   Proof.
     intros _. assert (E : exists X Y, elem t = LT :: X /\ elem t = Y ++ [GT]).
-    { destruct t as [n a lp c rp aft|n a aft|n a pre cs aft]; cbn [elem].
-      - exists (n ++ ser_attrs a ++ [GT] ++ (lp ++ c ++ rp) ++ close_tag n), (open_tag n a ++ (lp ++ c ++ rp) ++ [LT; SLASH] ++ n). split.
+    { destruct t as [n a tb lp c rp aft|n a tb aft|n a tb pre cs aft]; cbn [elem].
+      - exists (n ++ (ser_attrs a ++ tb) ++ [GT] ++ (lp ++ c ++ rp) ++ close_tag n), (open_tag n a tb ++ (lp ++ c ++ rp) ++ [LT; SLASH] ++ n). split.
         + unfold open_tag. cbn [app]. rewrite <- !app_assoc. reflexivity.
         + unfold close_tag. rewrite <- !app_assoc. reflexivity.
-      - exists (n ++ ser_attrs a ++ [SLASH; GT]), ([LT] ++ n ++ ser_attrs a ++ [SLASH]). split; [reflexivity|]. rewrite <- !app_assoc. reflexivity.
-      - exists (n ++ ser_attrs a ++ [GT] ++ pre ++ flat_map (fun c => elem c ++ tafter c) cs ++ close_tag n),
-               (open_tag n a ++ pre ++ flat_map (fun c => elem c ++ tafter c) cs ++ [LT; SLASH] ++ n). split.
+      - exists (n ++ (ser_attrs a ++ tb) ++ [SLASH; GT]), ([LT] ++ n ++ (ser_attrs a ++ tb) ++ [SLASH]). split; [reflexivity|]. unfold empty_tag. rewrite <- !app_assoc. reflexivity.
+      - exists (n ++ (ser_attrs a ++ tb) ++ [GT] ++ pre ++ flat_map (fun c => elem c ++ tafter c) cs ++ close_tag n),
+               (open_tag n a tb ++ pre ++ flat_map (fun c => elem c ++ tafter c) cs ++ [LT; SLASH] ++ n). split.
         + unfold open_tag. cbn [app]. rewrite <- !app_assoc. reflexivity.
         + unfold close_tag. rewrite <- !app_assoc. reflexivity. }
     destruct E as (X & Y & E1 & E2). split; [rewrite E1; reflexivity|rewrite E2, rev_app_distr; reflexivity].
@@ -768,12 +801,12 @@ Section P.
   Lemma inner_cons c t : inner (c :: t) = elem c ++ match t with [] => [] | _ => tafter c ++ inner t end.
   Proof. destruct t; cbn [inner]; [symmetry; apply app_nil_r|reflexivity]. Qed.
 
-  Lemma kids_inner cs : cs <> [] -> kids cs = inner cs ++ tafter (last cs (Leaf [] [] [] [] [] [])).
+  Lemma kids_inner cs : cs <> [] -> kids cs = inner cs ++ tafter (last cs (Leaf [] [] [] [] [] [] [])).
   Proof.
     induction cs as [|c t IH]; intros Hne; [congruence|]. destruct t as [|c2 t'].
     - cbn [kids flat_map inner last]. rewrite app_nil_r. reflexivity.
     - change (kids (c :: c2 :: t')) with ((elem c ++ tafter c) ++ kids (c2 :: t')). rewrite IH by discriminate.
-      change (inner (c :: c2 :: t')) with (elem c ++ tafter c ++ inner (c2 :: t')). change (last (c :: c2 :: t') (Leaf [] [] [] [] [] [])) with (last (c2 :: t') (Leaf [] [] [] [] [] [])).
+      change (inner (c :: c2 :: t')) with (elem c ++ tafter c ++ inner (c2 :: t')). change (last (c :: c2 :: t') (Leaf [] [] [] [] [] [] [])) with (last (c2 :: t') (Leaf [] [] [] [] [] [] [])).
       rewrite <- !app_assoc. reflexivity.
   Qed.
 
@@ -783,17 +816,17 @@ Section P.
     destruct (elem_edges c Hc) as [E1 E2]. destruct t as [|c2 t'].
     - cbn [inner]. split; assumption.
     - change (inner (c :: c2 :: t')) with (elem c ++ tafter c ++ inner (c2 :: t')). destruct (IH ltac:(discriminate) Ht) as [_ I2]. split.
-      + destruct (elem c) eqn:Ee; [|exact E1]. exfalso. destruct c; cbn [elem] in Ee; unfold open_tag in Ee; discriminate.
+      + destruct (elem c) eqn:Ee; [|exact E1]. exfalso. destruct c; cbn [elem] in Ee; unfold open_tag, empty_tag in Ee; discriminate.
       + rewrite !rev_app_distr. destruct (rev (inner (c2 :: t'))) eqn:Er; [|exact I2].
         exfalso. apply (f_equal (@rev Z)) in Er. rewrite rev_involutive in Er. cbn [rev] in Er.
         change (inner (c2 :: t')) with (match t' with [] => elem c2 | _ => elem c2 ++ tafter c2 ++ inner t' end) in Er.
-        destruct c2, t'; cbn [elem] in Er; unfold open_tag in Er; discriminate.
+        destruct c2, t'; cbn [elem] in Er; unfold open_tag, empty_tag in Er; discriminate.
   Qed.
 
-  Lemma last_wf cs : cs <> [] -> forallb wf cs = true -> all_space (tafter (last cs (Leaf [] [] [] [] [] []))) = true.
+  Lemma last_wf cs : cs <> [] -> forallb wf cs = true -> all_space (tafter (last cs (Leaf [] [] [] [] [] [] []))) = true.
   Proof.
     induction cs as [|c t IH]; intros Hne Hwf; [congruence|]. cbn [forallb] in Hwf. apply andb_true_iff in Hwf as [Hc Ht].
-    destruct t as [|c2 t']; [cbn [last]; apply wf_after; exact Hc|]. change (last (c :: c2 :: t') (Leaf [] [] [] [] [] [])) with (last (c2 :: t') (Leaf [] [] [] [] [] [])).
+    destruct t as [|c2 t']; [cbn [last]; apply wf_after; exact Hc|]. change (last (c :: c2 :: t') (Leaf [] [] [] [] [] [] [])) with (last (c2 :: t') (Leaf [] [] [] [] [] [] [])).
     apply IH; [discriminate|exact Ht].
   Qed.
 
@@ -862,14 +895,14 @@ Section P.
   Lemma wrap_aopt a v : match aopt a with Some d => VAttrs d v | None => v end = wrap a v.
   Proof. destruct a; reflexivity. Qed.
 
-  Lemma height_children n a pre cs aft d' : (height (Node n a pre cs aft) <= S d')%nat -> forall c, In c cs -> (height c <= d')%nat.
+  Lemma height_children n a tb pre cs aft d' : (height (Node n a tb pre cs aft) <= S d')%nat -> forall c, In c cs -> (height c <= d')%nat.
   Proof.
     cbn [height]. intros H. assert (H' : (fold_right (fun c m => Nat.max (height c) m) O cs <= d')%nat) by lia. clear H.
     induction cs as [|c0 cs IH]; intros c Hc; [destruct Hc|]. cbn [fold_right] in H'. destruct Hc as [<-|Hc]; [lia|]. apply IH; [lia|exact Hc].
   Qed.
 
   Lemma elem_nonempty t : exists X, elem t = LT :: X.
-  Proof. destruct t; cbn [elem]; unfold open_tag; cbn [app]; eexists; reflexivity. Qed.
+  Proof. destruct t; cbn [elem]; unfold open_tag, empty_tag; cbn [app]; eexists; reflexivity. Qed.
 
   Lemma skipn_elem (A B : text) : skipn (length A) (A ++ B) = B.
   Proof. rewrite skipn_app, skipn_all. replace (length A - length A)%nat with O by lia. reflexivity. Qed.
@@ -886,41 +919,41 @@ Section P.
     assert (Hstrip : strip (W ++ elem c ++ R) = elem c ++ R).
     { apply strip_core0; [exact HW| |exact HR]. rewrite EX. reflexivity. }
     rewrite Hstrip. rewrite EX at 1. cbn [app]. rewrite Z.eqb_refl. cbn [negb].
-    destruct c as [n a lp cont rp aft|n a aft|n a pre cs aft].
+    destruct c as [n a tb lp cont rp aft|n a tb aft|n a tb pre cs aft].
     - (* leaf *)
       cbn [wf] in Hwf. apply andb_true_iff in Hwf as [Hwf _]. apply andb_true_iff in Hwf as [Hwf Hrp]. apply andb_true_iff in Hwf as [Hwf Hlp].
-      apply andb_true_iff in Hwf as [Hwf Hc]. apply andb_true_iff in Hwf as [Hn Hok].
+      apply andb_true_iff in Hwf as [Hwf Hc]. apply andb_true_iff in Hwf as [Hwf Ht]. apply andb_true_iff in Hwf as [Hn Hok].
       pose proof Hok as Hok'. unfold attrs_ok in Hok'. apply andb_true_iff in Hok' as [Ha _].
       unfold content_ok in Hc. apply andb_true_iff in Hc as [Hc Hc2]. apply andb_true_iff in Hc as [Hnl Hc1].
       assert (Hmid : no_lt (lp ++ cont ++ rp) = true) by (rewrite !no_lt_app, Hnl, (all_space_nolt _ Hlp), (all_space_nolt _ Hrp); reflexivity).
       cbn [elem tname val_of]. rewrite <- !app_assoc.
       replace (lp ++ cont ++ rp ++ close_tag n ++ R) with ((lp ++ cont ++ rp) ++ close_tag n ++ R) by (rewrite <- !app_assoc; reflexivity).
-      rewrite (first_element_pair _ n a (lp ++ cont ++ rp) R Hn Hok).
+      rewrite (first_element_pair _ n a tb (lp ++ cont ++ rp) R Hn Hok Ht).
       + assert (Hs : strip (lp ++ cont ++ rp) = cont) by (apply (strip_core lp cont rp Hlp Hrp Hc1 Hc2)). rewrite Hs.
         assert (Hsub : sub_value d cont = Done (VStr cont)).
         { destruct cont as [|v0 cont']; [reflexivity|]. cbn [sub_value]. cbn [no_lt forallb] in Hnl. apply andb_true_iff in Hnl as [H0 _].
           apply negb_true_iff in H0. rewrite H0. reflexivity. }
         rewrite Hsub. rewrite wrap_aopt.
-        replace (open_tag n a ++ (lp ++ cont ++ rp) ++ close_tag n ++ R) with ((open_tag n a ++ (lp ++ cont ++ rp) ++ close_tag n) ++ R) by (rewrite <- !app_assoc; reflexivity).
+        replace (open_tag n a tb ++ (lp ++ cont ++ rp) ++ close_tag n ++ R) with ((open_tag n a tb ++ (lp ++ cont ++ rp) ++ close_tag n) ++ R) by (rewrite <- !app_assoc; reflexivity).
         rewrite skipn_elem. reflexivity.
       + pose proof (attrs_len a Ha). rewrite !app_length. unfold open_tag. rewrite !app_length. lia.
       + change (close_tag n) with (LT :: (SLASH :: n ++ [GT])). apply skippable_nolt. exact Hmid.
       + apply skippable_nolt. exact Hmid.
       + apply skippable_nolt. exact Hmid.
     - (* empty element *)
-      cbn [wf] in Hwf. apply andb_true_iff in Hwf as [Hwf _]. apply andb_true_iff in Hwf as [Hwf Hne']. apply andb_true_iff in Hwf as [Hn Hok].
+      cbn [wf] in Hwf. apply andb_true_iff in Hwf as [Hwf _]. apply andb_true_iff in Hwf as [Hwf Hne']. apply andb_true_iff in Hwf as [Hwf Ht]. apply andb_true_iff in Hwf as [Hn Hok].
       pose proof Hok as Hok'. unfold attrs_ok in Hok'. apply andb_true_iff in Hok' as [Ha _].
       assert (Hane : a <> []) by (destruct a; [discriminate|discriminate]).
-      cbn [elem tname val_of]. fold (empty_tag n a).
-      rewrite (first_element_empty _ n a R Hn Hok Hane).
+      cbn [elem tname val_of].
+      rewrite (first_element_empty _ n a tb R Hn Hok Ht Hane).
       + cbn [sub_value]. rewrite wrap_aopt. rewrite skipn_elem. reflexivity.
       + pose proof (attrs_len a Ha). rewrite !app_length. unfold empty_tag. rewrite !app_length. lia.
     - (* element with children *)
-      pose proof (wf_node _ _ _ _ _ Hwf) as (Hn & Hok & Hpre & _ & Hcs0 & Hcs & Hnn).
+      pose proof (wf_node _ _ _ _ _ _ Hwf) as (Hn & Hok & Ht & Hpre & _ & Hcs0 & Hcs & Hnn).
       pose proof Hok as Hok'. unfold attrs_ok in Hok'. apply andb_true_iff in Hok' as [Ha _].
       cbn [elem tname val_of]. fold (kids cs). rewrite <- !app_assoc.
       replace (pre ++ kids cs ++ close_tag n ++ R) with ((pre ++ kids cs) ++ close_tag n ++ R) by (rewrite <- !app_assoc; reflexivity).
-      rewrite (first_element_pair _ n a (pre ++ kids cs) R Hn Hok).
+      rewrite (first_element_pair _ n a tb (pre ++ kids cs) R Hn Hok Ht).
       + rewrite (strip_node_mid pre cs Hpre Hcs0 Hcs).
         destruct d as [|d']; [cbn [height] in Hh; lia|].
         assert (Hsub : sub_value (S d') (inner cs) = Done (VNode (collect (kvs cs)))).
@@ -929,12 +962,12 @@ Section P.
           { rewrite inner_cons, E0. cbn [app]. eexists. reflexivity. }
           destruct Ein as [Y EY]. rewrite (sub_value_node d' _ Y EY).
           assert (Hlt : (length ([] ++ inner (c0 :: cs')) < S (length (inner (c0 :: cs'))))%nat) by (rewrite app_nil_l; apply Nat.lt_succ_diag_r).
-          pose proof (height_children n a pre (c0 :: cs') aft d' Hh) as Hh'.
+          pose proof (height_children n a tb pre (c0 :: cs') aft d' Hh) as Hh'.
           pose proof (IHd d' eq_refl) as T. unfold children_ok in T.
           pose proof (T (c0 :: cs') Hcs Hh' [] [] _ eq_refl (or_introl Hcs0) Hlt) as P.
           rewrite app_nil_l in P. rewrite P. reflexivity. }
         rewrite Hsub. rewrite wrap_aopt.
-        replace (open_tag n a ++ (pre ++ kids cs) ++ close_tag n ++ R) with ((open_tag n a ++ (pre ++ kids cs) ++ close_tag n) ++ R) by (rewrite <- !app_assoc; reflexivity).
+        replace (open_tag n a tb ++ (pre ++ kids cs) ++ close_tag n ++ R) with ((open_tag n a tb ++ (pre ++ kids cs) ++ close_tag n) ++ R) by (rewrite <- !app_assoc; reflexivity).
         rewrite skipn_elem. reflexivity.
       + pose proof (attrs_len a Ha). rewrite !app_length. unfold open_tag. rewrite !app_length. lia.
       + apply (skippable_node _ n); auto. apply misses_close. exact Hn.
@@ -993,7 +1026,7 @@ Section P.
   Proof.
     intros HP [n' Hn] Hwf Hh. unfold parse_ksr. rewrite index_from_0, HP.
     assert (Hs : starts_with KSR_OPEN (ser t) = true).
-    { unfold ser. destruct t as [n a lp c rp aft|n a aft|n a pre cs aft]; cbn [tname] in Hn; subst n; reflexivity. }
+    { unfold ser. destruct t as [n a tb lp c rp aft|n a tb aft|n a tb pre cs aft]; cbn [tname] in Hn; subst n; reflexivity. }
     rewrite (index_here _ _ _ Hs). cbn [Nat.add]. rewrite skipn_elem. apply reader_extracts_tree; assumption.
   Qed.
 End P.
